@@ -13,8 +13,8 @@
    UnicodeTables.is_letter / is_digit, the tables of the Go toolchain).                      *)
 From Coq Require Import String ZArith List Bool.
 From Knut Require Import Model.Bytes Model.Utf8 Model.UnicodeTables Model.Scanner Model.Parser
-  Spec.SyntaxSpec Spec.LeafSpec Proofs.ScannerProofs Proofs.ParserProofs Proofs.RoundTripLeaf
-  Proofs.RoundTripTop Proofs.LeafProofs Proofs.KeywordProofs.
+  Spec.SyntaxSpec Spec.FormatSpec Spec.LeafSpec Spec.SepSpec Proofs.ScannerProofs Proofs.ParserProofs Proofs.RoundTripLeaf
+  Proofs.RoundTripTop Proofs.LeafProofs Proofs.KeywordProofs Proofs.SepProofs Proofs.DeterminedProofs.
 Import ListNotations.
 Open Scope Z_scope.
 
@@ -99,6 +99,86 @@ Theorem C07_keywords_unrestricted_refuted :
   exists letter digit t f, parse_text letter digit t = ParseOk f /\ wf_keywords_b t f = false.
 Proof. exact keywords_unrestricted_refuted. Qed.
 Print Assumptions C07_keywords_unrestricted_refuted.
+
+(* the text BETWEEN the leaves of every node is what the grammar says (Spec/SepSpec.v, bytes;
+   blanks are 32, 9, 13):
+     booking       credit blank+ debit blank+ decimal blank+ commodity
+     balance line  account blank+ decimal blank+ commodity
+     price         commodity blank+ decimal blank+ commodity
+     @accrue       interval blank+ date blank+ date blank+ account
+     @performance( blank* [ commodity ( blank* , blank* commodity )* ] blank* )
+   after the description, after every booking, after every balance line of the multi-line form
+   and after every addon stands blank* newline (the last line of a directive that ends the text
+   may lack the newline); every node starts with its first leaf and ends with its last leaf (or
+   with the rest of its last line), the date of a transaction follows its addon lines directly;
+   addon lines in front of an open / close / balance / price / include -- which the parser
+   accepts and drops -- start with `@` and end with a newline.  That the blanks of a balance
+   line, a price and an @accrue line are not empty (readWhitespace1 accepts none in front of a
+   newline) needs class_ok *)
+Theorem C07_separators : forall letter digit t f, class_ok letter digit ->
+  parse_text letter digit t = ParseOk f -> wf_separators_b t f = true.
+Proof. exact parse_text_separators. Qed.
+Print Assumptions C07_separators.
+
+Theorem C07_separators_unicode : forall t f,
+  parse_text is_letter is_digit t = ParseOk f -> wf_separators_b t f = true.
+Proof. exact (fun t f => parse_text_separators is_letter is_digit t f unicode_class_ok). Qed.
+Print Assumptions C07_separators_unicode.
+
+(* for an arbitrary classification the statement is false: if the newline is a letter, the
+   target commodity of `price A 1<newline>B` starts with the newline, right after the number *)
+Theorem C07_separators_unrestricted_refuted :
+  exists letter digit t f, parse_text letter digit t = ParseOk f /\ wf_separators_b t f = false.
+Proof. exact separators_unrestricted_refuted. Qed.
+Print Assumptions C07_separators_unrestricted_refuted.
+
+(* SUMMARY: every byte of the text is accounted for.  [pieces t f] (Spec/SepSpec.v) lists, in
+   source order, the gaps between the directives, the leaves, the keyword windows and the
+   separators of the tree, each with its class; [determined_b]: the ranges of the pieces follow
+   each other without a hole from 0 to |t| and the slice of every piece is in its class
+   ([piece_ok_b]: a gap is whitespace-only and comment lines as in cover_b; a leaf is in its
+   lexical class as in wf_leaves_b; a keyword window is as in wf_keywords_b; a separator is
+   blank+, blank*, blank* `,` blank*, blank* newline as in wf_separators_b).  Hence the text is
+   the concatenation of the slices of its pieces: it is determined by the leaves, the keywords
+   and the classes of gaps and separators.
+   The one class that does not describe its text completely is PDropped: addon lines in front
+   of an open / close / balance / price / include are accepted by the parser and belong to no
+   node (only in a transaction are they kept); of them the statement says `@` ... newline.   *)
+Theorem C07_text_determined : forall letter digit t f, class_ok letter digit ->
+  parse_text letter digit t = ParseOk f ->
+  determined_b letter digit t f = true /\
+  forallb (piece_ok_b Utf8M.decode letter digit t) (pieces t f) = true /\
+  concat (map (fun p => cut t (fst p)) (pieces t f)) = t.
+Proof. exact parse_text_determined. Qed.
+Print Assumptions C07_text_determined.
+
+Theorem C07_text_determined_unicode : forall t f,
+  parse_text is_letter is_digit t = ParseOk f ->
+  determined_b is_letter is_digit t f = true /\
+  forallb (piece_ok_b Utf8M.decode is_letter is_digit t) (pieces t f) = true /\
+  concat (map (fun p => cut t (fst p)) (pieces t f)) = t.
+Proof. exact (fun t f => parse_text_determined is_letter is_digit t f unicode_class_ok). Qed.
+Print Assumptions C07_text_determined_unicode.
+
+(* the same about ANY tree -- no parser in the statement: the five executable statements that
+   every check run evaluates on the Go parser's tree imply that its pieces account for every
+   byte ("cover_b + wf_leaves_b + wf_keywords_b + wf_separators_b", with wf_tree_b for the
+   order of the ranges) *)
+Theorem C07_specs_determine : forall letter digit t f,
+  wf_tree_b t f = true -> cover_b t f = true -> wf_leaves_b letter digit t f = true ->
+  wf_keywords_b t f = true -> wf_separators_b t f = true ->
+  determined_b letter digit t f = true /\
+  forallb (piece_ok_b Utf8M.decode letter digit t) (pieces t f) = true /\
+  concat (map (fun p => cut t (fst p)) (pieces t f)) = t.
+Proof. exact determined_of_specs_b. Qed.
+Print Assumptions C07_specs_determine.
+
+(* two parsed texts whose pieces have the same slices are the same text *)
+Theorem C07_text_determined_eq : forall letter digit t f t' f', class_ok letter digit ->
+  parse_text letter digit t = ParseOk f -> parse_text letter digit t' = ParseOk f' ->
+  map (fun p => cut t (fst p)) (pieces t f) = map (fun p => cut t' (fst p)) (pieces t' f') -> t = t'.
+Proof. exact parse_text_determined_eq. Qed.
+Print Assumptions C07_text_determined_eq.
 
 (* the three results in one statement *)
 Theorem C07_total : forall letter digit t,
@@ -228,3 +308,54 @@ Example C07_spec_rejects_shifted :
   cover_b t (mkFile (mkRange 0 18)
      [mkDirective (mkRange 0 16) (BOpen (mkOpen (mkRange 0 16) (mkRange 0 10) (mkAccount (mkRange 16 16) false)))]) = false.
 Proof. vm_compute. split; reflexivity. Qed.
+
+(* the separators of the example are what the grammar says *)
+Definition ex_text2 : str := Eval vm_compute in
+  runes_of_string "@performance( X , Y )
+@accrue monthly 2020-01-01  2020-12-31 A:B
+2020-01-02 ""d""
+A:B  C 1.5 X
+C A:B -2 Y
+
+2020-01-03 balance
+A:B 1 X
+C 2 Y
+
+2020-01-04 price X 2.5 Y
+"%string.
+Example C07_example_separators :
+  exists f, parse_text is_letter is_digit ex_text2 = ParseOk f /\ List.length (f_directives f) = 3%nat /\
+            wf_separators_b ex_text2 f = true.
+Proof. eexists. split; [vm_compute; reflexivity|]. vm_compute. split; reflexivity. Qed.
+
+(* the example text consists of 64 pieces *)
+Example C07_example_determined :
+  exists f, parse_text is_letter is_digit ex_text2 = ParseOk f /\
+            determined_b is_letter is_digit ex_text2 f = true /\ List.length (pieces ex_text2 f) = 64%nat.
+Proof. eexists. split; [vm_compute; reflexivity|]. vm_compute. split; reflexivity. Qed.
+
+(* a tab is a blank, a missing blank or a second comma is not: trees whose ranges claim
+   `A B 1X` (no blank before the commodity) or `@performance(X,,Y)` pass every other check *)
+Example C07_spec_rejects_missing_blank :
+  let t := runes_of_string "2020-01-01 ""x""
+A B 1X
+"%string in
+  let f := mkFile (mkRange 0 22)
+     [mkDirective (mkRange 0 22) (BTrx (mkTrx (mkRange 0 22) (mkRange 0 10) (mkQuoted (mkRange 11 14) (mkRange 12 13))
+        [mkBooking (mkRange 15 21) (mkAccount (mkRange 15 16) false) (mkAccount (mkRange 17 18) false) (mkRange 19 20) (mkRange 20 21)]
+        zero_addons))] in
+  wf_tree_b t f = true /\ cover_b t f = true /\ wf_leaves_b is_letter is_digit t f = true /\
+  wf_keywords_b t f = true /\ wf_separators_b t f = false.
+Proof. vm_compute. repeat split. Qed.
+Example C07_spec_rejects_two_commas :
+  let t := runes_of_string "@performance(X,,Y)
+2020-01-01 ""x""
+A B 1 X
+"%string in
+  let f := mkFile (mkRange 0 42)
+     [mkDirective (mkRange 0 42) (BTrx (mkTrx (mkRange 0 42) (mkRange 19 29) (mkQuoted (mkRange 30 33) (mkRange 31 32))
+        [mkBooking (mkRange 34 41) (mkAccount (mkRange 34 35) false) (mkAccount (mkRange 36 37) false) (mkRange 38 39) (mkRange 40 41)]
+        (mkAddons (mkRange 0 19) (mkPerf (mkRange 0 18) [mkRange 13 14; mkRange 16 17]) zero_accrual)))] in
+  wf_tree_b t f = true /\ cover_b t f = true /\ wf_leaves_b is_letter is_digit t f = true /\
+  wf_keywords_b t f = true /\ wf_separators_b t f = false.
+Proof. vm_compute. repeat split. Qed.
